@@ -19,6 +19,7 @@ carry a read/write permission — with that, the field loop of Parse makes
                            new column).
 -/
 import GormModel.Gen.BindLookupFacts
+import GormModel.Gen.AssocCondsFacts
 namespace Gorm
 
 structure BField where
@@ -80,11 +81,15 @@ def guessForeign (fs : List BField) (bn : List String) (names : List String) : O
 
 /-- callbacks/preload.go, `Preload(clause.Associations, args…)`: the conditions `preload` receives for a relation declared
     `embDepth` `embedded`-tagged structs deep.  parsePreloadMap's loop over Relationships.Relations stores NO args (value = "");
-    its loop over Relationships.EmbeddedRelations stores `args` under the embedded path, which preloadEntryPoint carries down
-    to the leaf as `preloads[name]`; every leaf calls `preload(tx, rel, append(preloads[name], associationsConds...), …)` with
-    associationsConds = the same args. -/
-def assocCondsReaching (embDepth : Nat) (args : List α) : List α :=
-  (if embDepth = 0 then [] else args) ++ args
+    every leaf calls `preload(tx, rel, append(preloads[name], associationsConds...), …)` with associationsConds = args.
+    `once = false` (the tree before the repair of F35): parsePreloadMap's loop over Relationships.EmbeddedRelations ALSO stores
+    `args` under the embedded path, which preloadEntryPoint carries down to the leaf as `preloads[name]`.
+    `once = true`: that loop stores nothing, as the loop over the top-level relations. -/
+def assocCondsReaching (once : Bool) (embDepth : Nat) (args : List α) : List α :=
+  (if embDepth = 0 ∨ once = true then [] else args) ++ args
+
+/-- the tree under test: `once` is the regenerated fact `Gen.assocCondsOnce` (extract/gen_c11_assoc.go) -/
+def assocCondsCurrent (embDepth : Nat) (args : List α) : List α := assocCondsReaching Gen.assocCondsOnce embDepth args
 
 /-- `tx.Find(dest, inlineConds...)`: the first inline condition is the SQL text, ALL the others are its bind arguments;
     the statement is well-formed iff the number of placeholders equals the number of arguments -/
